@@ -139,6 +139,12 @@ func (cr *CrashRun) featuresAt(pos int, faults []Fault, im *Image) map[string]bo
 	f := map[string]bool{}
 	for _, ft := range faults {
 		f["fault:"+ft.Kind] = true
+		if ft.GCDone {
+			f["nested:gc-done"] = true
+		}
+		if ft.LoserData {
+			f["nested:loser-data"] = true
+		}
 	}
 	recs, rest, _ := parseLog(im.Log)
 	if rest > 0 {
@@ -469,6 +475,23 @@ func (cr *CrashRun) exploreNested(im Image, pos int, faults []Fault, o crashChec
 	cr.stat("nested_recovery_io_events", len(io))
 	cur := im.clone()
 	n := 0
+	gcDone := false
+	// does the first crash image contain a loser with data records (something undo has to do)?
+	loserData := false
+	{
+		recs, _, _ := parseLog(im.Log)
+		fin := map[int32]bool{}
+		for _, r := range recs {
+			if r.Type == ltCommit || r.Type == ltAbort {
+				fin[r.Txn] = true
+			}
+		}
+		for _, r := range recs {
+			if !fin[r.Txn] && r.Type >= ltInsert && r.Type <= ltUpdate {
+				loserData = true
+			}
+		}
+	}
 	for _, i := range io {
 		ev := &revs[i]
 		// torn variant of the recovery's own write
@@ -477,13 +500,16 @@ func (cr *CrashRun) exploreNested(im Image, pos int, faults []Fault, o crashChec
 				t := t
 				tim := cur.clone()
 				applyTorn(&tim, ev, t)
-				fs := append(append([]Fault{}, faults...), Fault{Kind: "nested_torn_log", After: n, Tear: &t, Depth: depth})
+				fs := append(append([]Fault{}, faults...), Fault{Kind: "nested_torn_log", After: n, Tear: &t, Depth: depth, GCDone: gcDone, LoserData: loserData})
 				cr.nestedCheck(tim, pos, fs, depth)
 			}
 		}
 		applyEvent(&cur, ev)
 		n++
-		fs := append(append([]Fault{}, faults...), Fault{Kind: "nested_crash", After: n, Depth: depth})
+		if ev.Kind == 'G' {
+			gcDone = true
+		}
+		fs := append(append([]Fault{}, faults...), Fault{Kind: "nested_crash", After: n, Depth: depth, GCDone: gcDone, LoserData: loserData})
 		ok := cr.nestedCheck(cur.clone(), pos, fs, depth)
 		if ok && depth < o.nested && o.rnd.Chance(0.15) {
 			cr.exploreNested(cur.clone(), pos, fs, o, depth+1)
